@@ -53,7 +53,7 @@ PROPS = {
              "VERIF_SEED: ~40 definitions / ~120 instantiations): rustc type-checks `fn(DeserType<'a,T>) -> Expected<'a>` and the "
              "SerType assertion for every instantiation, then the C01/C02/C03 oracles run on every instantiation and variant; "
              "distinct = (instantiation, value shape)",
-        floors=fl({'definitions': 60, 'instantiations': 200}, {'definitions': 60}),
+        floors=fl({'definitions': 50, 'instantiations': 150}, {'definitions': 50}),
         assumptions=COMMON_ASSUME + ["the generator's grammar is the supported one (DESIGN.md section 4.1); shapes documented as unsupported are never emitted"]),
     'C06': dict(
         level='exploration', flavours=fl(['debug', 'fastrel'], ['debug', 'fastrel']),
@@ -69,7 +69,7 @@ PROPS = {
              "(default align/write_bytes do the work): per align event unit is a power of two >= native alignment, gap minimal and "
              "zero; per write_bytes event offset/length/unit equal the format model; returned count == bytes received; both readers "
              "consume exactly the stream; padding formula on all 4104 offsets x 13 units; distinct = (root, value shape) with a block",
-        floors=fl({'align_events': 20000, 'formula_pairs': 50000, 'residues': 40}, {'align_events': 200000}),
+        floors=fl({'align_events': 20000, 'formula_pairs': 50000, 'residues': 95}, {'align_events': 200000, 'residues': 95}),
         assumptions=COMMON_ASSUME),
     'C08': dict(
         level='exploration', flavours=fl(['debug'], ['debug']), custom=True,
@@ -77,7 +77,7 @@ PROPS = {
              "sets x {default features, no mmap}; loader result vs ε-copy of the file bytes; borrowed parts inside the hooked backing "
              "region; region 64-aligned, zero tail; strace log: madvise advice set == flags, mprotect read-only for load_mmap; moves "
              "(Box, Vec, channel to another thread, 8 concurrent readers, drop on another thread); distinct = (root, loader, flags)",
-        floors=fl({'loader_cells': 20, 'residues_mod_64': 40}, {'residues_mod_64': 64}),
+        floors=fl({'loader_cells': 18, 'residues_mod_64': 40, 'strace_sections': 100}, {'residues_mod_64': 64}),
         assumptions=COMMON_ASSUME + ["MADV_HUGEPAGE behaviour is the kernel's; only the advice issued is checked"]),
     'C09': dict(
         level='fault_enumeration', flavours=fl(['debug'], ['debug']), custom=True,
@@ -128,7 +128,7 @@ PROPS = {
         rule="every tag occurrence in every stream (root x values; all variants forced): one-byte tags overwritten with all foreign "
              "values of 0..=255, pointer-width variant indices with n, n+1, n+2, 255, 256, 2^32-1, 2^32, 2^63, 2^64-2, 2^64-1; both "
              "modes; oracle InvalidTag(v) with exactly v; the written tag maps back to the written variant; distinct = (root, value shape) with a tag",
-        floors=fl({'foreign_tags': 300000, 'variants_seen': 40}, {'foreign_tags': 1000000}),
+        floors=fl({'foreign_tags': 300000, 'variants_seen': 30}, {'foreign_tags': 1000000}),
         assumptions=COMMON_ASSUME + ["valid-but-different tags make the payload ill-typed; their outcome is unspecified and not judged"]),
     'C16': dict(
         level='exploration', flavours=fl(['debug', 'fastrel', 'asan'], ['debug', 'fastrel', 'asan']),
